@@ -8,7 +8,7 @@ from contracts import probe_native, c11_hostkey, c09_parsers, c12_gex
 def custom_native(ip, runner):
     code = probe_native.C09 % {'native': os.path.join(VERIF, 'native'), 'tier': runner.tier}
     return [native_bounded(runner, 'fault-matrix', 'the audit terminates (bounded number of reads) through status 0/1/2/3 and no uncaught exception; a fault confined to a probe connection leaves the complete algorithm report (status 0/2/3); a malformed initial handshake gives no algorithm report and status 1',
-                           code, '(connection, message, fault) triples on a scripted server (plain RSA+Ed25519 keys, and an RSA certificate): truncation at every byte offset of banner / KEXINIT / KEXDH_REPLY / GEX_GROUP / GEX_REPLY on the first connection carrying each (every 9th offset on further connections), early close, stall, garbage, each length field (nested blob fields included) set to 0 / len-1 / len+1 / huge, wrong message types, 1 or 5 debug messages first, debug only, duplicated packet, 1-byte segmentation, extra pre-banner lines, empty payload, padding longer than the packet, degenerate GEX moduli (0..7), 40 seeded random byte mutations per stage; reads are instantaneous (no wall clock)',
+                           code, '(connection, message, fault) triples on a scripted server (plain RSA+Ed25519 keys, and an RSA certificate): truncation at every byte offset of banner / KEXINIT / KEXDH_REPLY / GEX_GROUP / GEX_REPLY on the first connection carrying each (every 9th offset on further connections), early close, stall, garbage, each length field (nested blob fields included) set to 0 / len-1 / len+1 / huge, wrong message types, 1 or 5 debug messages first, debug only, duplicated packet, 1-byte segmentation, extra pre-banner lines, empty payload, padding longer than the packet, degenerate GEX moduli (0..7), 40 seeded random byte mutations per stage; an SSH-1 server whose public key message is truncated at every offset / has a bad checksum / wrong type / is garbage; reads are instantaneous (no wall clock)',
                            'ssh_audit:audit (end to end, fake server)')]
 
 
